@@ -279,6 +279,11 @@ PROPS["C06"]["explanation"] = PROPS["C06"]["explanation"].replace(" Not decided:
 PROPS["C05"]["rules"] = PROPS["C05"]["rules"] + [rules_gr.rule_signext_symmetry]
 PROPS["C05"]["explanation"] += " (BITFLUSH) the bit buffer is written back only in write mode. (SIGNSYM) the two sign-extension arms of the n-bit decoder (fill with ones / fill with zeroes) touch exactly the same bytes and bits."
 
+PROPS["C04"]["rules"] = PROPS["C04"]["rules"] + [rules_ref.rule_converted_value_used, rules_ref.rule_seek_resets_cursor]
+PROPS["C04"]["explanation"] = PROPS["C04"]["explanation"].replace(" Not decided (value-level", " (CONVUSED) wherever DFKconvert writes into a local buffer (e.g. the fill value handed to HMCcreate by SDsetchunk), something other than free() consumes that buffer afterwards; (SEEKRESET) every coder's seek either re-runs the coder's init routine or resets each cursor field of its state, so a read after a seek never continues from a stale decode buffer. Not decided (value-level")
+PROPS["C05"]["rules"] = PROPS["C05"]["rules"] + [rules_ref.rule_seek_resets_cursor]
+PROPS["C06"]["rules"] = PROPS["C06"]["rules"] + [rules_ref.rule_converted_value_used]
+
 NOT_APPLICABLE = {
     "C18": "hrepack content preservation/idempotence is value-level over file x option products; no structural clause is a genuine "
            "necessary condition that is not already another property's rule",
